@@ -606,6 +606,29 @@ func c18Graph(c *GCase, r *core.Rec) {
 	if !equalAdj([][]int(g), snapshot) {
 		r.Fail("graph-modified", "the graph was modified by a read-only operation")
 	}
+	// History: the caller edits the graph in place (every adjacency list reversed, same
+	// backing arrays) and asks again: the answers are those of the graph as it is now.
+	rev := copyAdj(adj)
+	changed := false
+	for v := range g {
+		for i, j := 0, len(g[v])-1; i < j; i, j = i+1, j-1 {
+			g[v][i], g[v][j] = g[v][j], g[v][i]
+			rev[v][i], rev[v][j] = rev[v][j], rev[v][i]
+			if g[v][i] != g[v][j] {
+				changed = true
+			}
+		}
+	}
+	if changed {
+		pre, post, _ := refDFS(rev, c.Root)
+		if gp := graphalg.PreOrder(g, c.Root); !equalInts(gp, pre) {
+			r.Fail("edited-in-place", "after reversing every adjacency list in place PreOrder(root %d)=%v, DFS pre-order of %v is %v", c.Root, clip(gp), rev, clip(pre))
+		}
+		if gq := graphalg.PostOrder(g, c.Root); !equalInts(gq, post) {
+			r.Fail("edited-in-place", "after reversing every adjacency list in place PostOrder(root %d)=%v, DFS post-order of %v is %v", c.Root, clip(gq), rev, clip(post))
+		}
+		r.Trans(2)
+	}
 }
 
 // --- subgraphs -----------------------------------------------------------------
